@@ -39,6 +39,8 @@ def instances(tier):
     out.append(dict(name='flag[r2,N2,group-assign]', fn='eval_step', args=dict(rank=2, N=2, hard={'*': dict(closure='PercusYevick', flag=True, pot='HardSphere', high='sym')}, diam={'A': 1, 'B': 2}, group_assign=True)))
     out.append(dict(name='flag[r2,N2,explicit-potential-sigma]', fn='eval_step', args=dict(rank=2, N=2, hard={p: dict(closure=c, flag=True, pot='LennardJones') for p, c in (('AA', 'PercusYevick'), ('AB', 'HyperNettedChain'), ('BB', 'MeanSphericalApproximation'))},
                                                                                           diam={'A': 2, 'B': 2}, psigma={'AA': 1, 'AB': 1, 'BB': 1})))
+    out.append(dict(name='flag[r1,N3,HyperNettedChain,domain-from-dk]', fn='eval_step', args=dict(rank=1, N=3, hard={'AA': dict(closure='HyperNettedChain', flag=True, pot='havoc')}, diam={'A': 2}, domain_from='dk')))
+    out.append(dict(name='solved[r1,N3,domain-from-dk]', fn='solved_step', args=dict(rank=1, N=3, domain_from='dk'), query_timeout_ms=120000, timeout=1500))
     for rank, N in (((1, 3), (1, 2)) if tier == 'quick' else ((1, 3), (1, 2), (2, 2))):
         out.append(dict(name='solved[r%d,N%d]' % (rank, N), fn='solved_step', args=dict(rank=rank, N=N), query_timeout_ms=120000, timeout=1500))
     return out
@@ -101,12 +103,12 @@ def eval_step(E, rank, N, hard, diam, **bk):
     E.claim_true('some-core-point-covered', ncore > 0)
 
 
-def solved_step(E, rank, N):
+def solved_step(E, rank, N, **bk):
     """on a solved object (root stub as in C01): g = h+1 = fun/r at every core point of the hard pairs"""
     hard = {'AA': dict(closure='PercusYevick', flag=True, pot='havoc')}
     if rank == 2:
         hard['AB'] = dict(closure='HyperNettedChain', flag=True, pot='havoc')
-    B = _build(E, rank, N, hard, {'A': 2, 'B': 1})
+    B = _build(E, rank, N, hard, {'A': 2, 'B': 1}, **bk)
     _C01.STUB_LOG.clear(); _C01.STUB_LOG['E'] = E
     n = rank
     guess = E.arr('g', (N * n * n,), default=0.0)
